@@ -19,6 +19,15 @@ pub struct NullCase {
     pub val: u64,
 }
 
+/// The two crypto-simd traits called THROUGH the trait (generic code sees only the bound; an inherent method of the
+/// same name would win for `v.method()` on the concrete type and hide what the trait impl does).
+fn via_srr<T: SplatRotateRight>(v: T, i: u32) -> T::Output {
+    v.splat_rotate_right(i)
+}
+fn via_rwr<T: RotateWordsRight>(v: T, i: u32) -> T::Output {
+    v.rotate_words_right(i)
+}
+
 pub fn null_strategy() -> BoxedStrategy<NullCase> {
     (bytes_n(64), bytes_n(64), any::<[u8; 4]>(), any::<u8>(), 0u8..4, 0u8..4, prop_oneof![any::<u64>(), Just(u64::MAX), Just(0u64)])
         .prop_map(|(a, b, rots, splat_rot, word_rot, idx, val)| NullCase { a, b, rots, splat_rot, word_rot, idx, val })
@@ -72,9 +81,11 @@ macro_rules! vec4_cells {
         $cells.check(&cell("rotate_right"), || { let mut x = mk(&wa); rd(x.rotate_right(mk(&amts))) }, $bfn(&want));
         let sr = 1 + ($c.splat_rot as u32 % ($bits - 1));
         $cells.check(&cell("splat_rotate_right"), || rd(mk(&wa).splat_rotate_right(sr)), V::rotr(a, $bits, sr));
+        $cells.check(&cell("trait:splat_rotate_right"), || rd(via_srr(mk(&wa), sr)), V::rotr(a, $bits, sr));
         let wr = $c.word_rot as usize % 4;
         let want: Vec<$word> = (0..4).map(|i| wa[(i + 4 - wr) % 4]).collect();
         $cells.check(&cell(&format!("rotate_words_right{}", wr)), || rd(mk(&wa).rotate_words_right(wr as u32)), $bfn(&want));
+        $cells.check(&cell(&format!("trait:rotate_words_right{}", wr)), || rd(via_rwr(mk(&wa), wr as u32)), $bfn(&want));
         let i = $c.idx as usize % 4;
         let mut e = wa.clone();
         e[i] = $c.val as $word;
@@ -165,9 +176,11 @@ pub fn null_check(known: &[String], c: &NullCase, info: &mut CaseInfo) -> Result
         cells.check(&cell("or"), || rd(mk(&wa) | mk(&wb)), V::or(a, b));
         let sr = 1 + (c.splat_rot as u32 % 31);
         cells.check(&cell("splat_rotate_right"), || rd(mk(&wa).splat_rotate_right(sr)), V::rotr(a, 32, sr));
+        cells.check(&cell("trait:splat_rotate_right"), || rd(via_srr(mk(&wa), sr)), V::rotr(a, 32, sr));
         let wr = c.word_rot as usize % 4;
         let want: Vec<u32> = (0..16).map(|i| wa[(i / 4) * 4 + (i % 4 + 4 - wr) % 4]).collect();
         cells.check(&cell(&format!("rotate_words_right{}", wr)), || rd(mk(&wa).rotate_words_right(wr as u32)), b32(&want));
+        cells.check(&cell(&format!("trait:rotate_words_right{}", wr)), || rd(via_rwr(mk(&wa), wr as u32)), b32(&want));
     }
     let nz = c.a.0.iter().any(|x| *x != 0);
     cells.info.nontrivial = nz;
@@ -181,6 +194,7 @@ pub fn run_c19(ctx: &mut Ctx) {
     let n = ctx.count(60_000, 1_000_000);
     ctx.run("operation-chains", n, chain_strategy(), chain_check);
     ctx.required_classes.push("run of >= 64 word rotations".into());
+    ctx.required_classes.push("chain mixes splat-built and part-built values".into());
 }
 
 // ------------------------------------------------------------------------------------------------
@@ -200,6 +214,9 @@ pub enum NOp {
     OrB,
     Replace(u8, u64),
     RotateRightLanes([u8; 4]),
+    /// from here on the second operand is `splat(first word / first lane of b)` (true) or the full `b` (false): values
+    /// built by `splat` and values built part by part must be interchangeable at every point of a chain
+    OperandSplat(bool),
 }
 
 #[derive(Clone, Debug, Serialize, Deserialize)]
@@ -208,6 +225,9 @@ pub struct NullChain {
     pub b: HexBytes,
     /// (operation, repetitions)
     pub runs: Vec<(NOp, u16)>,
+    /// the chain starts from `splat(first word / lane of a)` instead of the full `a`
+    #[serde(default)]
+    pub start_splat: bool,
 }
 
 pub fn chain_strategy() -> BoxedStrategy<NullChain> {
@@ -218,9 +238,10 @@ pub fn chain_strategy() -> BoxedStrategy<NullChain> {
         1 => Just(NOp::AndB), 1 => Just(NOp::OrB),
         1 => (0u8..4, any::<u64>()).prop_map(|(i, v)| NOp::Replace(i, v)),
         1 => any::<[u8; 4]>().prop_map(NOp::RotateRightLanes),
+        2 => any::<bool>().prop_map(NOp::OperandSplat),
     ];
     let reps = prop_oneof![6 => 1u16..4, 2 => 4u16..70, 2 => 60u16..300];
-    (bytes_n(64), bytes_n(64), prop::collection::vec((op, reps), 1..10)).prop_map(|(a, b, runs)| NullChain { a, b, runs }).boxed()
+    (bytes_n(64), bytes_n(64), prop::collection::vec((op, reps), 1..10), prop::bool::weighted(0.3)).prop_map(|(a, b, runs, start_splat)| NullChain { a, b, runs, start_splat }).boxed()
 }
 
 fn model_step(cur: &[u8], b: &[u8], op: &NOp, wbits: u32) -> Vec<u8> {
@@ -249,6 +270,7 @@ fn model_step(cur: &[u8], b: &[u8], op: &NOp, wbits: u32) -> Vec<u8> {
             out[i * wb..(i + 1) * wb].copy_from_slice(&v.to_le_bytes()[..wb]);
             out
         }
+        NOp::OperandSplat(_) => cur.to_vec(),
         NOp::RotateRightLanes(a) => {
             let m = if wbits == 128 { u128::MAX } else { (1u128 << wbits) - 1 };
             let w = V::words(cur, wbits);
@@ -268,18 +290,31 @@ macro_rules! chain_vec4 {
         let b = &$c.b.0[..$nbytes];
         let mk = |w: &[$word]| $ty::new(w[0], w[1], w[2], w[3]);
         let rd = |v: $ty| -> Vec<u8> { $bfn(&[v.extract(0), v.extract(1), v.extract(2), v.extract(3)]) };
-        let vb = mk(&$wfn(b));
-        let mut want = a.to_vec();
+        let vb_full = mk(&$wfn(b));
+        let vb_splat = $ty::splat($wfn(b)[0]);
+        let wbytes = ($bits / 8) as usize;
+        let b_splat: Vec<u8> = b[..wbytes].iter().cycle().take($nbytes).cloned().collect();
+        let a_splat: Vec<u8> = a[..wbytes].iter().cycle().take($nbytes).cloned().collect();
+        let mut want = if $c.start_splat { a_splat } else { a.to_vec() };
+        let mut cur_b: &[u8] = b;
         for (op, reps) in &$c.runs {
+            if let NOp::OperandSplat(f) = op {
+                cur_b = if *f { &b_splat } else { b };
+            }
             for _ in 0..*reps {
-                want = model_step(&want, b, op, $bits);
+                want = model_step(&want, cur_b, op, $bits);
             }
         }
         let got = crate::engine::guard(|| {
-            let mut v = mk(&$wfn(a));
+            let mut v = if $c.start_splat { $ty::splat($wfn(a)[0]) } else { mk(&$wfn(a)) };
+            let mut vb = vb_full;
             for (op, reps) in &$c.runs {
+                if let NOp::OperandSplat(f) = op {
+                    vb = if *f { vb_splat } else { vb_full };
+                }
                 for _ in 0..*reps {
                     v = match op {
+                        NOp::OperandSplat(_) => v,
                         NOp::RotWords(i) => v.rotate_words_right((*i % 4) as u32),
                         NOp::SplatRot(r) => v.splat_rotate_right(1 + (*r as u32 % ($bits - 1))),
                         NOp::AddB => v + vb,
@@ -309,6 +344,7 @@ pub fn chain_check(c: &NullChain, info: &mut CaseInfo) -> Result<(), Fail> {
     info.nontrivial = total >= 2;
     info.label_if(total >= 64, "chain of >= 64 operations");
     info.label_if(longest_rot >= 64, "run of >= 64 word rotations");
+    info.label_if(c.start_splat || c.runs.iter().any(|(o, _)| matches!(o, NOp::OperandSplat(true))), "chain mixes splat-built and part-built values");
     let report = |ty: &str, r: (Result<Vec<u8>, String>, Vec<u8>)| -> Result<(), Fail> {
         match r.0 {
             Err(p) => Err(Fail::new(format!("C19:{}:chain:PANIC", ty), format!("chain of {} operations panicked: {}", total, p))),
@@ -325,21 +361,33 @@ pub fn chain_check(c: &NullChain, info: &mut CaseInfo) -> Result<(), Fail> {
         let b = &c.b.0[..64];
         let lane = |w: &[u32], i: usize| u32x4::new(w[4 * i], w[4 * i + 1], w[4 * i + 2], w[4 * i + 3]);
         let mk = |w: &[u32]| u32x4x4::from((lane(w, 0), lane(w, 1), lane(w, 2), lane(w, 3)));
-        let vb = mk(&w32(b));
-        let mut want = a.to_vec();
+        let vb_full = mk(&w32(b));
+        let vb_splat = u32x4x4::splat(lane(&w32(b), 0));
+        let b_splat: Vec<u8> = b[..16].iter().cycle().take(64).cloned().collect();
+        let a_splat: Vec<u8> = a[..16].iter().cycle().take(64).cloned().collect();
+        let mut want = if c.start_splat { a_splat } else { a.to_vec() };
+        let mut cur_b: &[u8] = b;
         for (op, reps) in &c.runs {
+            if let NOp::OperandSplat(f) = op {
+                cur_b = if *f { &b_splat } else { b };
+            }
             if matches!(op, NOp::Replace(..) | NOp::RotateRightLanes(_)) {
                 continue;
             }
             for _ in 0..*reps {
-                want = model_step(&want, b, op, 32);
+                want = model_step(&want, cur_b, op, 32);
             }
         }
         let got = crate::engine::guard(|| {
-            let mut v = mk(&w32(a));
+            let mut v = if c.start_splat { u32x4x4::splat(lane(&w32(a), 0)) } else { mk(&w32(a)) };
+            let mut vb = vb_full;
             for (op, reps) in &c.runs {
+                if let NOp::OperandSplat(f) = op {
+                    vb = if *f { vb_splat } else { vb_full };
+                }
                 for _ in 0..*reps {
                     v = match op {
+                        NOp::OperandSplat(_) => v,
                         NOp::RotWords(i) => v.rotate_words_right((*i % 4) as u32),
                         NOp::SplatRot(r) => v.splat_rotate_right(1 + (*r as u32 % 31)),
                         NOp::AddB => v + vb,
